@@ -342,6 +342,18 @@ def run(ctx, R, tier):
                     '%s sets the fade to %s, the life cycle requires exactly %s' % (m, d, cst),
                     detail={'method': m, 'target': d}, where=body.where(bb))
     R.floor('B.SM.consts', nconst, 3)
+    fade_start(F, R)
+    state_change_reported(F, R)
+
+    # ---- B.SM.decode / B.C03.adv
+    decode_rules(F, R)
+    # ---- mirror, gates, unload
+    sound_rules(F, R)
+    drain_rule(F, R)
+
+
+def fade_start(F, R, rule='B.SM.fade-start'):
+    from ..paths import describe_rv
     # entering Pausing / Stopping / Resuming must start the fade on every path: the edge out of these states is only
     # taken when the fade tween reports completion, so a state entered without a tween is never left
     for m in ('pause', 'stop', 'resume'):
@@ -352,20 +364,38 @@ def run(ctx, R, tier):
         for bb, si, st in body.stmts():
             if st['k'] not in ('assign', 'setdiscr') or pretty_place(body, st['lhs']) != ST:
                 continue
-            from ..paths import describe_rv
             var = describe_rv(body, st['rv']).split('::')[-1].split('(')[0] if st['k'] == 'assign' else '?'
             if var not in ('Pausing', 'Stopping', 'Resuming'):
                 continue
             ok = bool(sets) and must_pass(body, [bb], returns(body), sets)
-            R.check(ok, 'B.SM.fade-start', '%s:%s' % (m, var),
+            R.check(ok, rule, '%s:%s' % (m, var),
                     '%s enters %s on a path that does not start the volume fade: update() leaves %s only when the fade tween finishes, '
                     'so the sound would stay in %s forever' % (m, var, var, var), detail={'method': m, 'state': var}, where=body.where(bb))
 
-    # ---- B.SM.decode / B.C03.adv
-    decode_rules(F, R)
-    # ---- mirror, gates, unload
-    sound_rules(F, R)
-    drain_rule(F, R)
+
+
+def state_change_reported(F, R, rule='B.SM.reported', only_to=None):
+    """PlaybackStateManager::update tells its caller (true) on every path that leaves the manager in another state than it
+    found it in: the owner publishes the state to the handle / the decoder thread only on true.  The relation is extracted
+    with the flags a sound's constructor gives the manager."""
+    names = state_names(F)
+    if not R.check(names is not None, rule, 'anchor:State', 'enum playback_state_manager::State not found'):
+        return
+    flag_names, bindings, problems = owner_bindings(F)
+    rel = extract(F, 'update', names, None, flags=bindings.get('sound', {}))
+    if not R.check(rel is not None and 'sound' in bindings, rule, 'anchor:update', 'PlaybackStateManager::update / its constructor in the sound code not found'):
+        return
+    n = 0
+    for s_ in names:
+        for to, ret, dec, calls in rel[s_]:
+            for b_ in sorted(to - frozenset([s_])):
+                if only_to and b_ not in only_to:
+                    continue
+                n += 1
+                R.check(ret_bool(ret, dec) is True or 'True' in str(ret), rule, 'reported:%s->%s' % (s_, b_),
+                        'update() takes the edge %s->%s and returns %s: the owner mirrors the state to the handle and the decoder thread only when '
+                        'update returns true, so the new state is never published' % (s_, b_, ret), detail={'edge': [s_, b_]})
+    R.floor(rule, n, 5 if not only_to else 2)
 
 
 def drain_rule(F, R):
